@@ -555,7 +555,12 @@ def check_point_label(ctx, lim, case, i, p, parts):
     for t, text, q in parts:
         groups.setdefault(t, []).append((text, q))
     for t, g in groups.items():
-        if len(g) > 4 or p not in [q for _, q in g]:
+        if p not in [q for _, q in g]:
+            continue
+        if len(g) > 4:
+            if all(x in i["text"] for x, _ in g):
+                ctx.count("label-point-group-too-large-to-order")
+                return
             continue
         for perm in itertools.permutations(g):
             if ",".join(x for x, _ in perm) == i["text"]:
@@ -690,12 +695,12 @@ def run(ctx):
     span_checks(ctx, real)
     # the known witnesses first: concrete violations on a tree without the repairs
     specs = [W_MASK, W_MERGED, W_SORTKEY, W_REFS] + W_DELAY
-    n_rand = 700 if ctx.quick() else 12000
+    n_rand = 700 if ctx.quick() else 9000
     for _ in range(n_rand):
         specs.append(gen_spec(ctx.rng, real))
     run_specs(ctx, lim, real, specs, variant)
     # shuffles
-    n_base = 45 if ctx.quick() else 500
+    n_base = 45 if ctx.quick() else 320
     for b in range(n_base):
         nrows = ctx.rng.choice([2, 3, 3, 4, 4] if ctx.quick() else [2, 3, 4, 4, 5, 5, 6, 8])
         while True:
